@@ -3,12 +3,13 @@ CONSTANTS
   LongLen = 5
   Layouts <- MCLayouts
   BaseLens = {0, 1, 4, 5, 6, 9}
-  Wipes = {}
+  Wipes = {119}
   Variants = {"asis", "fixed"}
   Cuts = FALSE
   SectorSize = 32
   MaxFaults = 1
   MaxRetry = 1
+  Session = TRUE
   Kinds = {"T2", "T1S", "T1D", "T512"}
   Sizes = {1, 2, 3, 5}
   Pads = {0, 1, 2, 3, 5, 7}
@@ -24,6 +25,6 @@ INVARIANT CapSound
 INVARIANT RejectEarly
 INVARIANT FxNoCrash
 INVARIANT CrashOnlyKnown
-INVARIANT Coherent
+INVARIANT CoherentButFormat
 INVARIANT SectorSync
 CHECK_DEADLOCK FALSE
